@@ -201,6 +201,22 @@ Theorem C17_range_suffix : forall n len,
 Proof. exact range_suffix. Qed.
 Print Assumptions C17_range_suffix.
 
+(* KNOWN FINDING range:suffix-longer-than-file-416 — the suffix theorem above stops at n <= len because beyond it the
+   code deviates from "the requested slice": a suffix longer than the file finds nothing satisfiable (416) where RFC 7233
+   selects the whole file.  Pinned by webob's own tests/test_byterange.py::test_not_satisfiable. *)
+Theorem C17_range_suffix_longer_gives_416 : forall n len,
+  (0 <= len < n)%Z -> range_for_length (- n) None len = None.
+Proof. exact range_suffix_longer. Qed.
+Print Assumptions C17_range_suffix_longer_gives_416.
+
+Theorem C17_range_suffix_longer_refuted :
+  exists content n k,
+    (0 < Z.of_nat (length content) < n)%Z /\ kind_ok k content /\
+    fileapp (File true content) (mkFreq GET (Some ((- n)%Z, None)) k) =
+      mkResp 416 None None (Some (None, Z.of_nat (length content))) [] (Some []).
+Proof. exact range_suffix_longer_refuted. Qed.
+Print Assumptions C17_range_suffix_longer_refuted.
+
 Theorem C17_range_unsatisfiable : forall a e len,
   (0 <= len <= a)%Z -> range_for_length a e len = None.
 Proof. exact range_unsatisfiable. Qed.
